@@ -337,8 +337,10 @@ def unbox(v, dt):
         raise ValueError("Could not convert object to NumPy timedelta")
     if k in "TU":
         if v is None:
-            if k == "T" and dt.na_object is not None: return dt.na_object
-            raise ModelGap("store None into string array")
+            # measured on NumPy 2.0.2: None is not the na_object "" of dataiter's string dtype, so it is stored as the text
+            # "None" - four characters, outside the bounded string domain
+            if k == "T": return "None"        # opaque concrete cell (compared lazily; a symbolic comparison with it is a model gap)
+            raise ModelGap("None stored into a fixed-width string array")
         return _strcell(v, dt)
     return v
 
@@ -359,6 +361,11 @@ def _div_exact(e, k):
 
 def _coarsen(v, unit):
     k = symx.unit_ratio(unit, v.unit)
+    if symx.CTX is not None:
+        # a cell built from its digits (symdt.sym_datetime_us) knows its floor quotient: no division for the solver
+        known = symx.CTX.notes.get("floor_div", {}).get((z3.simplify(v.e).get_id(), k))
+        if known is not None:
+            return z3.If(v.e == INT64_MIN, v.e, known)
     d = _div_exact(z3.If(v.e == INT64_MIN, z3.BitVecVal(0, 64), v.e), k)
     if d is not None:
         return z3.If(v.e == INT64_MIN, v.e, d)
@@ -386,6 +393,8 @@ def cast_cell(c, fm, to):
         raise ModelGap(f"astype string -> {to}")
     if to.kind in "TU":
         raise ModelGap(f"astype {fm} -> string")
+    if fm.kind in "Mm" and to.kind == "i":
+        return c          # array-level cast (measured on NumPy 2.0.2): the ticks, NaT as INT64_MIN
     if fm.kind in "Mm" and to.kind == "f":
         # array-level cast only (measured on NumPy 2.0.2): the ticks as a number, NaT included (-9.223372036854776e18)
         return z3.fpSignedToFP(symx.RNE, c, F64)
@@ -675,6 +684,12 @@ class ndarray:
     def __rsub__(self, o): return self._bin(o, lambda a, b: b - a, self._arith_dtype("sub"))
     def __mul__(self, o): return self._bin(o, lambda a, b: _mul(a, b), self._arith_dtype("mul"))
     def __rmul__(self, o): return self._bin(o, lambda a, b: _mul(b, a), self._arith_dtype("mul"))
+    def __mod__(self, o):
+        if self.dtype.kind != "i" or not isinstance(o, int) or isinstance(o, builtins.bool): raise ModelGap(f"{self.dtype} % {type(o).__name__}")
+        return self._bin(o, lambda a, b: a % b, self._arith_dtype("mod"))
+    def __floordiv__(self, o):
+        if self.dtype.kind != "i" or not isinstance(o, int) or isinstance(o, builtins.bool): raise ModelGap(f"{self.dtype} // {type(o).__name__}")
+        return self._bin(o, lambda a, b: a // b, self._arith_dtype("floordiv"))
     def __truediv__(self, o): return self._bin(o, lambda a, b: _div(a, b), self._arith_dtype("truediv"))
     def __rtruediv__(self, o): return self._bin(o, lambda a, b: _div(b, a), self._arith_dtype("truediv"))
     # --- reductions
